@@ -20,8 +20,8 @@ ROOT = os.path.dirname(os.path.dirname(os.path.abspath(__file__)))
 SPEC = os.path.join(ROOT, "spec")
 HARNESS = os.path.join(ROOT, "harness")
 WORK = os.path.join(ROOT, "work")
-EVID = os.path.join(ROOT, "evidence")
-REPLAYS = os.path.join(ROOT, "replays")
+EVID = os.environ.get("VERIF_EVID", os.path.join(ROOT, "evidence"))       # overridden when a seeded change is being tried
+REPLAYS = os.environ.get("VERIF_REPLAYS", os.path.join(ROOT, "replays"))
 REPO = os.environ.get("VERIF_REPO", "/repo")
 JARS = "/opt/veriftools/tla/tla2tools.jar:/opt/veriftools/tla/CommunityModules-deps.jar"
 NCPU = int(os.environ.get("VERIF_JOBS", "16"))
@@ -53,7 +53,7 @@ class TlcResult:
         m = re.search(r"depth of the complete state graph search is (\d+)", out)
         self.depth = int(m.group(1)) if m else 0
         self.actions = {}
-        for m in re.finditer(r"^<(\w+) line \d+, col \d+ to line \d+, col \d+ of module (\w+)>: (\d+):(\d+)", out, re.M):
+        for m in re.finditer(r"^<(\w+) line \d+, col \d+ to line \d+, col \d+ of module (\w+)(?: \([\d ]+\))?>: (\d+):(\d+)", out, re.M):
             self.actions[m.group(1)] = (int(m.group(3)), int(m.group(4)))
         self.error = None
         if "Error:" in out or rc not in (0,):
@@ -137,6 +137,14 @@ def build(tag, allow_fail=False):
     log("[build %s] %.1fs" % (tag, time.time() - t0))
     _built[tag] = binp
     return binp
+
+
+def build_many(tags, allow_fail=()):
+    """build several configurations concurrently (separate target directories); returns {tag: path | (None, stderr)}"""
+    import concurrent.futures as cf
+    with cf.ThreadPoolExecutor(max_workers=len(tags)) as ex:
+        futs = {t: ex.submit(build, t, t in allow_fail) for t in tags}
+        return {t: f.result() for t, f in futs.items()}
 
 
 # ------------------------------------------------------------------------------------------ drive
@@ -289,13 +297,18 @@ def hexs(b):
 
 
 class Run:
-    def __init__(self, pid, tier, seed):
+    def __init__(self, pid, tier, seed, collect=False, work=None):
         self.pid = pid
         self.tier = tier
         self.seed = seed
         self.rng = random.Random("%s/%d" % (pid, seed))
         self.t0 = time.time()
-        self.work = os.path.join(WORK, pid)
+        # collect = True: build the property's workload and execute it on the primary build, but leave the
+        # judging to the caller (used by the configuration properties C16, C17, C20, which run the workloads
+        # of other properties through several builds)
+        self.collect = collect
+        self.workloads = []
+        self.work = work or os.path.join(WORK, pid)
         shutil.rmtree(self.work, ignore_errors=True)
         os.makedirs(self.work, exist_ok=True)
         self.mc = []          # model-checking runs (object machines)
@@ -318,6 +331,8 @@ class Run:
 
     # ---- model checking of an object machine
     def model_check(self, module, cfg, need_actions=(), workers=4, timeout=900, xmx="6g", extra=()):
+        if self.collect:
+            return None
         r = run_tlc(module, cfg, os.path.join(self.work, "mc." + cfg), workers=workers, coverage=True, timeout=timeout, xmx=xmx, extra=extra)
         if r.error or r.invariant_violated:
             raise ToolError("model checking %s/%s failed (the specification itself is inconsistent):\n%s" % (module, cfg, r.error or r.invariant_violated))
@@ -350,6 +365,15 @@ class Run:
             self.builds.append(tag)
         label = label or ("%s.%s" % (trace_module, tag))
         recs = drive(binp, histories, os.path.join(self.work, label), tag=tag)
+        if self.collect:
+            self.workloads.append({"trace_module": trace_module, "histories": histories, "records": recs, "cost": cost, "label": label,
+                                   "describe": describe, "tag": tag, "owner": self.pid})
+            return {"records": recs, "verdicts": {r["id"]: ("DONE", len(r["ev"])) for r in recs}}
+        return self.judge(trace_module, recs, tag, describe=describe, label=label, shards=shards, cost=cost, timeout=timeout)
+
+    def judge(self, trace_module, recs, tag, describe=None, label=None, shards=None, cost=cost_default, timeout=1500):
+        """validate recorded observation traces of build `tag` with TLC; rejected histories become violations"""
+        label = label or ("%s.%s" % (trace_module, tag))
         verdicts, stats = validate(trace_module, recs, os.path.join(self.work, label), shards=shards, cost=cost, timeout=timeout, label=label)
         stats["build"] = tag
         self.tv.append(stats)
@@ -362,6 +386,41 @@ class Run:
                                         "trace_module": trace_module, "desc": (describe(r, v) if describe else {})})
         log("[tv %s %s] %d histories, %d events, %d rejected, %.1fs" % (trace_module, tag, stats["histories"], stats["events"], nbad, stats["wall_s"]))
         return {"records": recs, "verdicts": verdicts}
+
+    def drive_on(self, histories, tag, label):
+        """execute the histories on build `tag` without judging"""
+        binp = build(tag)
+        if tag not in self.builds:
+            self.builds.append(tag)
+        return drive(binp, histories, os.path.join(self.work, label), tag=tag)
+
+    def equiv(self, recs_by_tag, label, describe=None, timeout=900):
+        """K observation traces of the same script (dict build tag -> records, same order): the product trace
+        specification TraceEquiv must accept them (all builds made the same observation at every event)."""
+        tags = list(recs_by_tag)
+        base = recs_by_tag[tags[0]]
+        if not base:
+            return
+        merged = []
+        for i, r in enumerate(base):
+            m = {"id": r["id"], "tags": tags, "ev": []}
+            for j, e in enumerate(r["ev"]):
+                m["ev"].append({"op": e.get("op", ""), "outs": [recs_by_tag[t][i]["ev"][j]["out"] for t in tags]})
+            merged.append(m)
+        wd = os.path.join(self.work, label)
+        verdicts, stats = validate("TraceEquiv", merged, wd, cost=lambda m: 1 + sum(len(e["outs"][0]["v"]) for e in m["ev"]) / 50.0, timeout=timeout, label=label)
+        stats["build"] = "+".join(tags)
+        self.tv.append(stats)
+        nbad = 0
+        for i, r in enumerate(base):
+            v = verdicts[r["id"]]
+            if v[0] == "BAD":
+                nbad += 1
+                d = dict(describe(r, v) if describe else {})
+                d["equiv"] = "%s/%s" % (v[2][0], v[3][0])
+                self.violations.append({"record": r, "position": v[1], "expected": v[2], "observed": v[3], "build": v[3][0],
+                                        "trace_module": "TraceEquiv", "desc": d, "builds": tags})
+        log("[equiv %s %s] %d histories, %d events, %d rejected, %.1fs" % (label, "+".join(tags), stats["histories"], stats["events"], nbad, stats["wall_s"]))
 
     def sample(self, s):
         if len(self.samples) < 12:
@@ -399,7 +458,7 @@ class Run:
         os.makedirs(os.path.join(REPLAYS, self.pid), exist_ok=True)
         for v in new:
             rec = v["record"]
-            blob = json.dumps({"property": self.pid, "build": v["build"], "trace_module": v["trace_module"], "desc": v["desc"],
+            blob = json.dumps({"property": self.pid, "build": v["build"], "builds": v.get("builds", [v["build"]]), "trace_module": v["trace_module"], "desc": v["desc"],
                                "position": v["position"], "expected": v["expected"], "observed": v["observed"],
                                "history": {k: (rec[k] if k != "ev" else [{a: b for a, b in e.items() if a != "out"} for e in rec["ev"]]) for k in rec},
                                "observed_trace": rec}, sort_keys=True)
@@ -444,6 +503,20 @@ class Run:
               "assumptions": self.assumptions, "wall_s": round(time.time() - self.t0, 1), "violations": nviol, "notes": self.notes}
         with open(os.path.join(EVID, self.pid + ".json"), "w") as f:
             json.dump(ev, f, indent=1)
+
+
+def collect_workload(R, modname, tier="quick"):
+    """the workload of property `modname` (e.g. "c05"), built and executed on the primary build exactly as that
+    property's own check does at `tier`, but not judged: list of {trace_module, histories, records, cost, label, ...}"""
+    import importlib
+    mod = importlib.import_module("props." + modname)
+    sub = Run(modname.upper(), tier, R.seed, collect=True, work=os.path.join(R.work, "sub_" + modname))
+    mod.run(sub)
+    R.mc += sub.mc          # behaviour-generation runs made on the way
+    for t in sub.builds:
+        if t not in R.builds:
+            R.builds.append(t)
+    return sub.workloads
 
 
 def _short(o):
